@@ -76,9 +76,21 @@ def rest_expr_is(e, pos):
             okc = True
         elif a[0] == "call" and a[1] == "core::ops::index::Index::index" and deep_strip(a[2][0]) == ("param", pos["path"]) and any(x[0] == "agg" and x[1].endswith("RangeFrom") for x in walk(a)):
             oks = True
+        elif a[0] == "field" and a[2] == "1" and _is_split_once_pair(deep_strip(a[1]), pos):
+            oks = True      # `Some((head, tail)) => (head, tail)`: the tail split_once found
         else:
             return False
     return okc and oks
+
+
+def _is_split_once_pair(t, pos):
+    """the (head, tail) pair inside `path.split_once(SEP)`'s Some"""
+    if t[0] == "field" and t[2] == "0":
+        t = deep_strip(t[1])
+    if t[0] == "as" and t[2] == "Some":
+        c = deep_strip(t[1])
+        return c[0] == "call" and c[1] == "core::str::<impl str>::split_once" and deep_strip(c[2][0]) == ("param", pos["path"])
+    return False
 
 
 def rule_add_total(ctx, p, cfg, rid="R13"):
@@ -130,7 +142,9 @@ def run_cfg(ctx, p, cfg):
             r.require(any(x[0] == "agg" and x[1].endswith("RangeTo") for c in a.calls("core::ops::index::Index::index") for x in walk(c.arg(1))), "part-is-prefix-up-to-match", fn=a, detail="part = &path[..idx]")
         else:
             r.require(any((c.callee or "").endswith("split_once") for c in a.calls()), "split_once-form", fn=a, detail="add splits with split_once(SEP)")
-        r.require(sep["check_char"] == s[:1] and len(set(s)) == 1 and len(s) in sep["check_consts"], "name-check-agrees", detail="name check: char %r, constants %s; SEP %r" % (sep["check_char"], sorted(set(sep["check_consts"])), s))
+        from rules import c13 as _c13
+        okl, why = _c13.name_language_ok(p)
+        r.require(sep["check_char"] == s[:1] and len(set(s)) == 1 and okl, "name-check-agrees", detail="name check: char %r; SEP %r; %s" % (sep["check_char"], s, why))
         # both functions split the same argument kind (the path / target string)
         fsplit = [c for c in f.calls() if (c.callee or "").startswith("core::str::<impl str>::") and (c.callee or "").rsplit("::", 1)[-1] in ("split", "find", "split_once")]
         r.require(len(fsplit) == 1 and deep_strip(fsplit[0].arg(0)) == ("param", 2), "find-splits-the-target", fn=f, detail="find splits its path argument")
@@ -140,6 +154,10 @@ def run_cfg(ctx, p, cfg):
         sn = ro["shared_new"]
         site = ro["add_site"]
         nx = [c for c in sn.calls(NEXT) if sn.in_loop(c.block) and sn.dominates(c.block, site.block) and sn.can_reach(site.block, c.block)]
+        if len(nx) > 1:
+            # a loop nested in the body (resolving the names, spelled as a loop) also steps before the insertion: the loop that
+            # feeds the insertion its logger is the outermost one
+            nx = [n for n in nx if all(sn.dominates(n.block, m.block) for m in nx)]
         if len(nx) != 1:
             raise ShapeUnrecognised("insertion loop iterator not found")
         it = nx[0].arg(0)
@@ -199,6 +217,34 @@ def run_cfg(ctx, p, cfg):
             chain.append(x[1])
             x = strip(x[2][0])
         ok_chain = aa[0] == "call" and chain[:1] == ["core::iter::traits::iterator::Iterator::collect"] and "config::runtime::Logger::appenders" in chain and not any(c.rsplit("::", 1)[-1] in ("filter", "skip", "take", "rev", "filter_map", "take_while", "skip_while") for c in chain)
+        if not ok_chain:
+            # the same resolution spelled as a loop: a fresh vector, one push per name of logger.appenders(), none skipped
+            from l4sa.panics import _root_local
+            sl = sn
+            op_ = site.t["args"][pos["appenders"] - 1]
+            la = (op_.get("move") or op_.get("copy") or {}).get("l")
+            fills = []
+            for c in sl.calls():
+                if not (c.callee or "").endswith("Vec::<T, A>::push") or not sl.in_loop(c.block):
+                    continue
+                rp = c.t["args"][0].get("move") or c.t["args"][0].get("copy")
+                rd = [d_ for d_ in sl.defs(rp["l"])] if rp and not rp["p"] else []
+                own = rd[0][4]["place"]["l"] if len(rd) == 1 and rd[0][3] == "rv" and rd[0][4]["k"] == "ref" and not rd[0][4]["place"]["p"] else None
+                if own is not None and la is not None and _root_local(sl, own) == _root_local(sl, la):
+                    fills.append(c)
+            if len(fills) == 1:
+                c = fills[0]
+                inner = [n for n in sl.calls(NEXT) if sl.in_loop(n.block) and sl.dominates(n.block, c.block) and sl.can_reach(c.block, n.block) and n.block != nx[0].block]
+                inner = [n for n in inner if all(sl.dominates(m.block, n.block) for m in inner)]      # the innermost
+                if len(inner) == 1:
+                    n_ = inner[0]
+                    src_ok = any(x[0] == "call" and x[1] == "config::runtime::Logger::appenders" for x in walk(n_.arg(0))) and \
+                        not any(x[0] == "call" and x[1].rsplit("::", 1)[-1] in ("filter", "skip", "take", "rev", "filter_map", "take_while", "skip_while", "step_by") for x in walk(n_.arg(0)))
+                    val_ok = any(x[0] == "call" and x[1] == "core::ops::index::Index::index" for x in walk(c.arg(1))) and any(x[0] == "as" and x[2] == "Some" and strip(x[1])[0] == "call" and len(strip(x[1])) > 3 and strip(x[1])[3] == n_.block for x in walk(c.arg(1)))
+                    sw_ = sl.term(n_.block).get("target")
+                    some_ = SwitchInfo(sl, sw_).target_of("Some") if sw_ is not None and sl.term(sw_)["k"] == "switch" else None
+                    all_ok = some_ is not None and not q.skipping_paths(sl, some_, {c.block}, {n_.block})
+                    ok_chain = src_ok and val_ok and all_ok
         r.require(ok_chain, "appenders-resolved-unconditionally", fn=sn, site=site.at, detail="appenders argument = %s" % show(aa, 5),
                   fail_detail="the appender indices handed to add() are not simply logger.appenders() resolved through the map (%s): an attachment can be dropped for some loggers, and additive descendants lose it too" % show(aa, 5))
         r.require(getters["config::runtime::Logger::name"] == pos["path"] - 1 and getters["config::runtime::Logger::additive"] == pos["additive"] - 1 and getters["config::runtime::Logger::level"] == pos["level"] - 1 and getters["config::runtime::Logger::appenders"] == pos["appenders"] - 1,
